@@ -183,8 +183,8 @@ class Evaluator:
         out = []
         for a in call.args:
             if isinstance(a, ast.Starred):
-                v = self.ev(a.value)
-                if not isinstance(v, (list, tuple)):
+                v = _as_iterable(self.ev(a.value))
+                if v is None:
                     raise Unsupported("starred non-sequence")
                 out.extend(v)
             else:
@@ -253,7 +253,15 @@ class Evaluator:
                     return r
             raise Unsupported(f"free name {e.id}")
         if isinstance(e, (ast.Tuple, ast.List)):
-            vals = [self.ev(x) for x in e.elts]
+            vals = []
+            for x in e.elts:
+                if isinstance(x, ast.Starred):
+                    it = _as_iterable(self.ev(x.value))
+                    if it is None:
+                        raise Unsupported("starred non-iterable in a display")
+                    vals.extend(it)
+                else:
+                    vals.append(self.ev(x))
             return tuple(vals) if isinstance(e, ast.Tuple) else vals
         if isinstance(e, ast.Dict):
             out = {}
